@@ -901,7 +901,17 @@ def judge_map(run, spec, req, resp, ramp, case, n_up_before):
         # level): a band of a few rows/columns matches neither octave after resampling. Weakly judged by design.
         run.dc('cache_of_cache_seam_between_tiles_from_different_lower_levels', nbad)
         over = False
+    def size_of(pos):
+        # size class of the displacement in output pixels of the unmagnified picture: the open finding about truncated
+        # sub-image offsets moves content by at most 2 px + mesh error; anything larger is something else
+        worst = max([abs(v['mean']) / r['scale'] for v in pos.values() if v] or [None], key=lambda x: -1 if x is None else x)
+        if worst is None:
+            return 'unmeasured'
+        return 'up_to_3px' if worst <= 3.0 else 'beyond_3px'
+
     if over:
+        mech['displacement'] = size_of(r['pos'])
+        run.count('outside_interval_displacement:%s:%s' % (mech['clipped'], mech['displacement']))
         viol('pixel_outside_interval',
              '%d of %d judged pixels (%.2f%%) are outside the colour range of their %.2f px neighbourhood (best octave '
              'k=%d of %r, scale %.2f); inside-extent bad %d (of which background %d), outside-extent bad %d; example %r; '
@@ -922,6 +932,8 @@ def judge_map(run, spec, req, resp, ramp, case, n_up_before):
         run.count('shift_%s_bin_%.1f' % ('mean', min(3.0, math.floor(abs(st['mean']) / r['scale'] * 5) / 5.0)))
         run.count('shift_p99_bin_%.1f' % min(4.0, math.floor(st['p99'] / r['scale'] * 2) / 2.0))
         if abs(st['mean']) > lim:
+            mech['displacement'] = size_of(r['pos'])
+            run.count('mean_shift_displacement:%s:%s' % (mech['clipped'], mech['displacement']))
             viol('mean_shift', 'mean displacement along canonical %s is %.2f output px (limit %.2f, scale %.2f, %d strong '
                  'pixels, p99 %.2f px), octave k=%d' % (ax, st['mean'], lim, r['scale'], st['n'], st['p99'], r['k']),
                  axis=ax)
@@ -955,7 +967,17 @@ def judge_fi(run, spec, req, click, resp, infos, case, url):
             near_edge = True
     if resp.code != 200:
         run.judge(cls, nontrivial=False)
-        viol('fi_status', 'answered %d %r' % (resp.code, resp.body[:300]))
+        if req['kind'] == 'wfi' and resp.code == 400 and b'outside the bounding box' in resp.body:
+            # MapProxy sizes a level in whole pixels of the grid bbox: a last column/row that would cover less than one
+            # pixel of it is not part of the tile matrix (GetTile refuses it too); our ceil() rule addressed it
+            lg = spec['grids'][spec['layer_grid']]
+            r0 = lg['res'][req['tile'][2]]
+            cov_w = (min(bbox[2], lg['bbox'][2]) - max(bbox[0], lg['bbox'][0])) / r0
+            cov_h = (min(bbox[3], lg['bbox'][3]) - max(bbox[1], lg['bbox'][1])) / r0
+            if cov_w < 1.0 or cov_h < 1.0:
+                run.dc('wmts_fi_for_tile_covering_less_than_one_pixel_of_the_grid')
+                return
+        viol('fi_status', 'answered %d %r' % (resp.code, resp.body[:900]))
         return
     if len(infos) == 0:
         run.judge(cls, nontrivial=False)
